@@ -274,13 +274,26 @@ def conformance(ob, grid, sizes, seed):
             a, b = Ss[key], Sr.get(key)
             if isinstance(a, (tuple, list)) and isinstance(b, (tuple, list)):
                 pairs = [('%s[%d]' % (key, j), x, y) for j, (x, y) in enumerate(zip(a, b))]
+            elif isinstance(a, dict) and isinstance(b, dict):
+                pairs = [('%s[%s]' % (key, j), a[j], b[j]) for j in a if j in b]
             else:
                 pairs = [(key, a, b)]
+            more = []
+            for nm, x, y in pairs:
+                if hasattr(x, '_xvalue') and hasattr(y, '_xvalue'):
+                    more += [(nm + '.' + c, getattr(x, c), getattr(y, c)) for c in ('_xvalue', '_yvalue', '_zvalue')]
+                elif hasattr(x, '_value') and hasattr(y, '_value') and hasattr(x, 'domain'):
+                    more.append((nm + '._value', x._value, y._value))
+                else:
+                    more.append((nm, x, y))
+            pairs = more
             for nm, x, y in pairs:
                 if isinstance(x, T.SymSparse):
                     sx = T.concretize_sparse(x, env)
                     ry = y.toarray()
                 elif isinstance(x, T.SymNDArray):
+                    if getattr(y, 'size', 1) == 0:
+                        continue
                     sx = T.concretize_array(x, env, cellshape=cellshape if (x.ndim == 1 and getattr(y, 'ndim', 0) == 1 and nd > 1 and y.shape[0] == math.prod(s + 2 for s in sizes)) else None)
                     ry = real_np.asarray(y)
                 else:
